@@ -51,6 +51,11 @@ Fixpoint t_next_event (fuel : nat) (t : transport) : event * transport :=
       end
   end.
 
+(* fuel for one next_event loop: every round either examines one more flag byte of the buffer or
+   reads at least one byte, so twice the bytes in sight (plus slack for a meter that stays silent) *)
+Definition ev_fuel (t : transport) : nat :=
+  length (c_buf (t_conn t)) + 2 * length (readable (t_ser t)) + 300 + 2 * length (concat (pending (t_ser t))).
+
 (* drain_out_buffer *)
 Fixpoint drain_out (fuel : nat) (t : transport) : res unit * transport :=
   match fuel with
@@ -74,7 +79,7 @@ Fixpoint drain_out (fuel : nat) (t : transport) : res unit * transport :=
             | (Ok fb, c1) =>
                 let t1 := upd t c1 rest (ser_write (t_ser t) fb) in
                 if segmented then
-                  let '(e, t2) := t_next_event (length (readable (t_ser t1)) + 300 + 2 * length (concat (pending (t_ser t1)))) t1 in
+                  let '(e, t2) := t_next_event (ev_fuel t1) t1 in
                   match e with
                   | EFrame KRr _ => drain_out f t2
                   | ERaise x => (Err x, t2)
@@ -84,9 +89,6 @@ Fixpoint drain_out (fuel : nat) (t : transport) : res unit * transport :=
             end
       end
   end.
-
-Definition ev_fuel (t : transport) : nat :=
-  length (readable (t_ser t)) + 300 + 2 * length (concat (pending (t_ser t))).
 
 (* connect / disconnect: send SNRM / DISC, wait for the UA *)
 Definition t_unnumbered (t : transport) (k : fkind) : event * transport :=
